@@ -290,7 +290,8 @@ def run(ctx):
                     switched.update(vm.complex_vars)
                 elif op == "standard_complex":
                     vm.standard_complex()
-                    switched.update(c for c in vm.complex_vars if not comp_tied_or_bounded(c))
+                    # the convenience pass after a fit standardises the free, unconstrained couplings only (a fixed radius or phase keeps its value)
+                    switched.update(c for c in vm.complex_vars if not comp_tied_or_bounded(c) and c + "r" in vm.trainable_vars and c + "i" in vm.trainable_vars)
                 elif op == "mask":
                     nm = str(rng.choice(list(vm.variables)))
                     with vm.mask_params({nm: 0.625}):  # exactly representable (the mask value is cast through float32 by the library)
